@@ -1,5 +1,6 @@
 // Unit V-HID: passkey-transports/src/hid.rs (CTAPHID framing) -- serves C16, C15
 #![allow(unused)]
+#![feature(allocator_api)]
 use vstd::prelude::*;
 use std::collections::HashMap;
 verus! {
@@ -15,6 +16,9 @@ pub fn vx_hashmap_get_mut<'a, V>(m: &'a mut HashMap<u32, V>, k: &u32) -> (r: Opt
 { m.get_mut(k) }
 
 //@ default-tags C16
+// HashMap::retain (no vstd specification): keeps a subset of the entries, values unchanged
+pub assume_specification<K, V, S, A: core::alloc::Allocator, F: FnMut(&K, &mut V) -> bool> [HashMap::<K, V, S, A>::retain] (m: &mut HashMap<K, V, S, A>, f: F)
+    ensures forall|k: K| #[trigger] final(m)@.contains_key(k) ==> old(m)@.contains_key(k);
 //@ source hid passkey-transports/src/hid.rs
 //@ extract hid enum Command
 //@ extract hid enum ErrorCode
